@@ -190,3 +190,56 @@ func patchedRng(repo string) (string, []byte, error) {
 	patched = append(patched, []byte("\n// VerifDrawHook lets the replay harness supply generator outputs.\nvar VerifDrawHook func(*PCGSource) (uint64, bool)\n")...)
 	return rng, patched, nil
 }
+
+// replayOne re-runs a stored counterexample against the natively compiled
+// repository (go test with the harness overlay) and prints what happened.
+func replayOne(path, repo, hdir string) int {
+	if abs, err := filepath.Abs(path); err == nil {
+		path = abs
+	}
+	data, err := os.ReadFile(path)
+	if err != nil {
+		fmt.Fprintln(os.Stderr, err)
+		return 2
+	}
+	var rf struct {
+		Harness  string `json:"harness"`
+		Kind     string `json:"kind"`
+		Tag      string `json:"tag"`
+		Property string `json:"property"`
+	}
+	if err := json.Unmarshal(data, &rf); err != nil {
+		fmt.Fprintln(os.Stderr, err)
+		return 2
+	}
+	dir, err := os.MkdirTemp("", "vreplay")
+	if err != nil {
+		fmt.Fprintln(os.Stderr, err)
+		return 2
+	}
+	defer os.RemoveAll(dir)
+	r := &replayer{repo: repo, hdir: hdir, dir: dir, prop: rf.Property}
+	of, err := r.overlayFile()
+	if err != nil {
+		fmt.Fprintln(os.Stderr, err)
+		return 2
+	}
+	lf := filepath.Join(dir, "list.txt")
+	os.WriteFile(lf, []byte(path+"\n"), 0o644)
+	cmd := exec.Command("go", "test", "-tags", "verif", "-vet=off", "-count=1", "-run", "^TestVerifReplay$", "-v", "-overlay", of, ".")
+	cmd.Dir = repo
+	cmd.Env = append(goEnv(), "VERIF_REPLAY_LIST="+lf)
+	out, _ := cmd.CombinedOutput()
+	for _, ln := range strings.Split(string(out), "\n") {
+		if strings.HasPrefix(ln, "VREPLAY ") {
+			fmt.Printf("harness=%s expected=%s/%s\n%s\n", rf.Harness, rf.Kind, rf.Tag, ln)
+			f := strings.SplitN(ln, " ", 4)
+			if len(f) >= 3 && (f[2] == "panic" || f[2] == "assert" || f[2] == "hang") {
+				return 1
+			}
+			return 0
+		}
+	}
+	fmt.Print(string(out))
+	return 2
+}
